@@ -491,3 +491,140 @@ if __name__ == "__main__":
     for m in info["members"]:
         tag = "P" if m["path"] in persisted else ("T" if m["path"] in info["transient"] else "?")
         print(tag, m["idx"], m["path"], m["kind"], m["off"], m["size"])
+
+
+# ============================================================================= read sets (C05 deepening)
+# For every translation unit of src/: which members of struct reb_simulation / reb_integrator_* does it access?
+# Crude but sound over-approximation: every access chain `v->a.b->c` whose head `v` is declared in that file as a
+# `struct reb_simulation*` or `struct reb_integrator_X*` (parameter or local, any function of the file) is walked through
+# the generated member table; every member reached is an access of (file, member).  Reads and writes are not told apart.
+READ_SKIP = {"glad.c", "communication_mpi.c"}
+
+
+def strip_strings(s):
+    return re.sub(r'"(?:\\.|[^"\\])*"', '""', s)
+
+
+def tu_accesses(text, by_path, integrators):
+    text = strip_strings(strip_c_comments(text))
+    simvars = set(re.findall(r"struct\s+reb_simulation\s*\*\s*(?:const\s+|restrict\s+|REB_RESTRICT\s+)*(\w+)", text))
+    intvars = {}
+    for x, v in re.findall(r"struct\s+reb_integrator_(\w+)\s*\*\s*(?:const\s+|restrict\s+|REB_RESTRICT\s+)*(\w+)", text):
+        intvars.setdefault(v, set()).add(x)
+    dp7vars = set(re.findall(r"struct\s+reb_dp7\s*\*?\s*(?:const\s+|restrict\s+)*(\w+)", text))
+    acc = set()
+    for m in re.finditer(r"\b([A-Za-z_]\w*)((?:\s*(?:\[[^\]\[]*\])?\s*(?:->|\.)\s*[A-Za-z_]\w*)+)", text):
+        head, rest = m.group(1), m.group(2)
+        names = re.findall(r"(?:->|\.)\s*([A-Za-z_]\w*)", rest)
+        cur = set()
+        if head in simvars:
+            cur.add("sim")
+        for x in intvars.get(head, ()):
+            cur.add("ri_" + x)
+        if not cur:
+            continue
+        for nm in names:
+            nxt = set()
+            for t in cur:
+                if t == "sim":
+                    if nm.startswith("ri_") and nm[3:] in integrators:
+                        nxt.add(nm)
+                    elif nm in by_path:
+                        acc.add(nm)
+                else:
+                    p_ = t + "." + nm
+                    if p_ in by_path:
+                        acc.add(p_)
+                    elif p_ + ".p0" in by_path:        # a reb_dp7: all seven arrays
+                        for k in range(7):
+                            acc.add("%s.p%d" % (p_, k))
+            cur = nxt
+            if not cur:
+                break
+    return acc
+
+
+def extract_reads(repo, info, write=True):
+    """-> dict(tus, accesses {(tu, path)}), and lean/RV/Gen/C05Reads.lean"""
+    by_path = info["by_path"]
+    integrators = sorted({p_.split(".")[0][3:] for p_ in by_path if p_.startswith("ri_")})
+    src = os.path.join(repo, "src")
+    tus = sorted(f for f in os.listdir(src) if f.endswith(".c") and f not in READ_SKIP)
+    accesses = {}
+    for f in tus:
+        accesses[f] = tu_accesses(open(os.path.join(src, f)).read(), by_path, integrators)
+    rules = json.load(open(os.path.join(ROOT, "ref", "C05_reads.json")))
+    out = {"tus": tus, "accesses": accesses, "rules": rules, "integrators": integrators}
+    if write:
+        write_if_changed(os.path.join(LEAN, "RV", "Gen", "C05Reads.lean"), render_reads(info, out))
+    return out
+
+
+def persisted_member_paths(info):
+    per = set()
+    for r in info["rows"]:
+        if r.get("path") and r["dtype"] not in ("REB_OTHER", "REB_FIELD_END"):
+            per.add(r["path"])
+            if r["dtype"] == "REB_DP7":
+                for k in range(7):
+                    per.add(r["path"][:-1] + str(k))
+    return per
+
+
+def owners_of(path, rules, transient):
+    """translation units that may access a restricted (carried-over, not persisted) member"""
+    own = set(rules["universal_owners"])
+    best = None
+    for k_ in rules["owners"]:
+        if (path == k_ or path.startswith(k_)) and (best is None or len(k_) > len(best)):
+            best = k_
+    if best is not None:
+        own |= set(rules["owners"][best])
+    return own
+
+
+def render_reads(info, rd):
+    by_path, tus, rules = info["by_path"], rd["tus"], rd["rules"]
+    tidx = {f: i for i, f in enumerate(tus)}
+    per = persisted_member_paths(info)
+    tj = info["transient"]
+    unrestricted = set(rules["unrestricted_classes"])
+    o = ["/- GENERATED by rv/extract_c05.py (extract_reads) from src/*.c, ref/C05_transient.json and ref/C05_reads.json — do not edit. -/",
+         "namespace RV.Gen.C05Reads", ""]
+    o.append("def tuNames : List String := [%s]" % ", ".join(lstr(f) for f in tus))
+    o.append("def tuCount : Nat := %d" % len(tus))
+    acc_all = sorted((tidx[f], by_path[p_]["idx"]) for f in tus for p_ in rd["accesses"][f])
+    # only accesses to members that are neither persisted nor of an unrestricted class need a decision in Lean
+    # (the persisted set is tied to the descriptor table by c05_reads_persisted_consistent)
+    acc = sorted((tidx[f], by_path[p_]["idx"]) for f in tus for p_ in rd["accesses"][f]
+                 if p_ not in per and tj.get(p_, {}).get("class") not in unrestricted)
+    o.append("/-- (translation unit, member index): accesses, found by walking the access chains of the file, to members")
+    o.append("    that are neither persisted nor of a class that cannot influence the trajectory -/")
+    o.append("def accesses : List (Nat × Nat) := [%s]" % ", ".join("(%d, %d)" % a for a in acc))
+    o.append("def accessCount : Nat := %d" % len(acc))
+    o.append("/-- number of all member accesses found (including persisted / harmless members) -/")
+    o.append("def accessCountAll : Nat := %d" % len(acc_all))
+    o.append("/-- members that are persisted by a row of the descriptor table -/")
+    o.append("def persistedMembers : List Nat := [%s]" % ", ".join(str(by_path[p_]["idx"]) for p_ in sorted(per, key=lambda x: by_path[x]["idx"]) if p_ in by_path))
+    o.append("/-- members whose class (callback, handle, wallclock, flag, pointer) cannot influence the trajectory -/")
+    unr = sorted(by_path[p_]["idx"] for p_, v in tj.items() if p_ in by_path and v["class"] in unrestricted)
+    o.append("def unrestrictedMembers : List Nat := [%s]" % ", ".join(map(str, unr)))
+    own = []
+    for p_, v in tj.items():
+        if p_ in by_path and v["class"] not in unrestricted:
+            for f in sorted(owners_of(p_, rules, tj)):
+                if f in tidx:
+                    own.append((tidx[f], by_path[p_]["idx"]))
+    o.append("/-- (translation unit, member): the unit owns the not-persisted member (allocates / recomputes / resets it) -/")
+    o.append("def owners : List (Nat × Nat) := [%s]" % ", ".join("(%d, %d)" % a for a in sorted(own)))
+    al = sorted((tidx[e["tu"]], by_path[e["member"]]["idx"]) for e in rules["allowed"] if e["tu"] in tidx and e["member"] in by_path)
+    o.append("/-- cross-owner accesses reviewed and accepted (ref/C05_reads.json `allowed`, each with a reason) -/")
+    o.append("def allowed : List (Nat × Nat) := [%s]" % ", ".join("(%d, %d)" % a for a in al))
+    fi = sorted((tidx[e["tu"]], by_path[e["member"]]["idx"]) for e in rules["findings"] if e["tu"] in tidx and e["member"] in by_path)
+    o.append("/-- cross-owner accesses that ARE defects (ref/C05_reads.json `findings`, each with its key) -/")
+    o.append("def findingRows : List (Nat × Nat) := [%s]" % ", ".join("(%d, %d)" % a for a in fi))
+    o.append("def allowedCount : Nat := %d" % len(rules["allowed"]))
+    o.append("def findingCount : Nat := %d" % len(rules["findings"]))
+    o.append("")
+    o.append("end RV.Gen.C05Reads")
+    return "\n".join(o) + "\n"
